@@ -9,6 +9,18 @@ use crate::tl::{gen_plan, run_plan};
 /// (kind, rva, size) of a MINIDUMP_STRING at rva, by its own header
 fn string_obj(img: &[u8], rva: u32) -> Result<(u64, u64, u64), String> { let n = u32_at(img, rva as usize)?; Ok((7, rva as u64, 4 + n as u64)) }
 
+/// every object that a stored offset of the (possibly truncated) image designates lies inside it; Err names the first one that does not
+pub fn references_inside(img: &[u8]) -> Result<usize, String> {
+    let l = abstract_image(img)?;
+    let toks: Vec<u64> = l.s().split_whitespace().skip(1).filter_map(|t| u64::from_str_radix(t, 16).ok()).collect();
+    // layout: len sig ver count dir_rva ndir (4 per entry) nobj (3 per object)
+    let ndir = *toks.get(5).ok_or("short abstraction")? as usize; let base = 6 + 4 * ndir;
+    let nobj = *toks.get(base).ok_or("short abstraction")? as usize;
+    for i in 0..nobj { let (k, r, sz) = (toks[base + 1 + 3 * i], toks[base + 2 + 3 * i], toks[base + 3 + 3 * i]);
+        if r + sz > img.len() as u64 { return Err(format!("object of kind {k} at {r:#x}+{sz} lies beyond the {} bytes present", img.len())); } }
+    Ok(nobj)
+}
+
 pub fn abstract_image(img: &[u8]) -> Result<Line, String> {
     let d = md::Dump::parse(img)?;
     let mut l = Line::new("c01_sound");
@@ -54,7 +66,7 @@ pub fn run(a: &Args) {
         let mut plan = gen_plan(&mut rng, focus, &a.tier, case + 1);
         if plan.crash == 3 { plan.crash = 1; }
         // names that are not ASCII: thread names and caller-supplied mapping names go through the string writer
-        let fancy = ["tête", "ñandú-7", "日本語スレ", "😀😀", "a é", "ü"];
+        let fancy = ["tête", "", "ñandú-7", "日本語スレ", "😀😀", "a é", "ü", " "];   // the empty and the all-blank name are readable names too
         for (i, t) in plan.scen.threads.iter_mut().enumerate() { if rng.chance(1, 2) { t.name = Some(fancy[i % fancy.len()].as_bytes().to_vec()); } }
         if rng.chance(2, 3) { plan.user_maps.push((0x2000_0000, 0x3000, format!("/opt/démo/lib{}.so.{}", rng.pick(&["über‑café", "plain", "日本"]), rng.below(9)), (0..rng.below(24)).map(|_| rng.next() as u8).collect())); }
         // an application region whose tail lies in the unmapped page after the first anonymous mapping: the read
